@@ -260,9 +260,14 @@ func (b *builder) buildEnvs() error {
 
 // buildLogDir builds the log directory for the DAG.
 func (b *builder) buildLogDir() (err error) {
-	logDir, err := substituteCommands(os.ExpandEnv(b.def.LogDir))
-	if err != nil {
-		return err
+	logDir := os.ExpandEnv(b.def.LogDir)
+	if !b.opts.noEval {
+		// Command substitution is evaluated only when the DAG is loaded
+		// for execution, not for listing, viewing or validating it.
+		logDir, err = substituteCommands(logDir)
+		if err != nil {
+			return err
+		}
 	}
 	b.dag.LogDir = logDir
 	return err
